@@ -92,6 +92,7 @@ func (s *Seq) End() int { return s.Offset + s.Len() }
 // Clone returns a copy of the sequence.
 func (s *Seq) Clone() seq.Rower {
 	c := *s
+	c.SubAnnotations = append([]seq.Annotation(nil), s.SubAnnotations...)
 	c.Seq = make(alphabet.Columns, len(s.Seq))
 	for i, cs := range s.Seq {
 		c.Seq[i] = append([]alphabet.Letter(nil), cs...)
